@@ -4,7 +4,13 @@ ST6 (RandState always seeded; the lazily created default state is kept), RS12 (t
 import ast
 
 from sa.core import rule
-from sa.ir import sig_body, norm, dotted, call_name, recv_text, walk_local, names_in, local_defs, guard_facts, expand_locals
+from sa.ir import sig_body, norm, dotted, call_name, recv_text, walk_local, names_in, local_defs, expand_locals
+from sa.ir import guard_facts as _guard_facts_all
+
+
+def guard_facts(fnode, node):
+    """conditions under which node runs; an argument check that raises does not make what follows conditional"""
+    return _guard_facts_all(fnode, node, with_raise=False)
 
 
 def _q(f):
@@ -20,7 +26,7 @@ def _calls_super(f):
 
 
 # --------------------------------------------------------------------------------------- VP1
-@rule("VP1", ["C06", "C05", "C09"], "the per-call soft-priority reset reaches every soft constraint the priority assignment reaches", engine="XS", floor=2)
+@rule("VP1", ["C06", "C05", "C09", "C16"], "the per-call soft-priority reset reaches every soft constraint the priority assignment reaches", engine="XS", floor=2)
 def vp1(prog, rr):
     setter, resetter = prog.cls("RandInfoBuilder"), prog.cls("ClearSoftPriorityVisitor")
     base = prog.cls("ModelVisitor")
@@ -267,6 +273,17 @@ def cv21(prog, rr):
         rr.finding(f, (inval or [f.node])[0], "CoverpointModel.coverage_ev", "CV21: the cached coverage percentage is invalidated only under %s: a hit that does "
                    "not change the covered set still changes nothing, but a covering hit on another path leaves a stale percentage"
                    % ([guard_facts(f.node, n) for n in inval] or "no condition at all - it is never invalidated"), text="conditional invalidation")
+    # the hit itself is counted on every regular-bin event
+    incs = [n for n in walk_local(f.node) if isinstance(n, ast.AugAssign) and isinstance(n.op, ast.Add) and isinstance(n.target, ast.Subscript)
+            and norm(n.target.value) in ("self.hit_l",) or (isinstance(n, ast.AugAssign) and "hit_l" in norm(n.target) and "ignore" not in norm(n.target)
+                                                           and "illegal" not in norm(n.target))]
+    for n in incs:
+        extra = [g for g in guard_facts(f.node, n) if not ("bin_type" in g or "CoverpointBinType" in g)]
+        rr.inst("hit counter increment %s guarded by %s" % (norm(n), guard_facts(f.node, n)))
+        if extra:
+            rr.finding(f, n, "CoverpointModel.coverage_ev", "CV21: the hit of a regular bin is only counted when %s: once a model is fully covered its counters "
+                       "stop, and the type model - which reaches 100%% before any single instance does - no longer holds the sum of the instances' hits"
+                       % extra, text="conditional hit count")
     notes = [n for n in walk_local(f.node) if isinstance(n, ast.Call) and call_name(n) == "coverage_ev" and "parent" in (recv_text(n) or "")]
     rr.inst("covergroup notifications: %d" % len(notes))
     if not notes:
@@ -295,7 +312,7 @@ def bd8(prog, rr):
 
 
 # --------------------------------------------------------------------------------------- BD9
-@rule("BD9", ["C14"], "the number of bits the swizzler steers covers the magnitude of both ends of the target range", engine="DF", floor=1)
+@rule("BD9", ["C14", "C20"], "the number of bits the swizzler steers covers the magnitude of both ends of the target range", engine="DF", floor=1)
 def bd9(prog, rr):
     f = prog.method("SolveGroupSwizzlerPartsel", "create_rand_domain_constraint")
     widths = [n for n in walk_local(f.node) if isinstance(n, ast.Assign) and isinstance(n.value, ast.Call) and
